@@ -4,7 +4,7 @@
 cd /verif
 for d in seeded/*/; do
   id=$(basename $d)
-  prop=$(python3 -c "import json;print(json.load(open('$d/meta.json'))['property'])")
+  prop=$(python3 -c "import json;m=json.load(open('$d/meta.json'));print(m.get('check_with') or m['property'])")
   checks=${SWEEP_CHECKS:-$prop}
   wt=/var/tmp/sweep.$$
   git -C /repo worktree add -q --detach $wt HEAD || exit 2
